@@ -77,6 +77,24 @@ Theorem C19_error_measures_finite_refuted :
   exists k, let e := distribute_times k (1, 1024) 8 1 in f64_max_bound * snd e < fst e.
 Proof. exact error_overflow_witness. Qed.
 
+(* "all weights are finite", input side (finding C19-F2, fixed in /repo by 7897eb0): with the empty-slice guard in get_variance_mean
+   the variance and standard deviation of no values are 0, so the twelve route-derived weights of a solution without routes are
+   finite (all zero); on non-empty slices the guarded functions are the unguarded ones. *)
+Theorem C19_route_less_weights_finite :
+  f_variance [] = f_zero /\ f_stdev [] = f_zero /\
+  forallb f_finite (f_route_less_features f_variance f_stdev) = true /\
+  forallb f_is_zero (f_route_less_features f_variance f_stdev) = true /\
+  (forall x l, f_variance (x :: l) = f_variance_prefix (x :: l)) /\ (forall x l, f_stdev (x :: l) = f_stdev_prefix (x :: l)).
+Proof. exact empty_statistics_zero. Qed.
+(* the PRE-FIX function (get_variance_mean without the guard; seeded mutant selftest/mutants/C19-9.diff) violates the clause:
+   variance / stdev of an empty slice are NaN in IEEE arithmetic and the route-derived weights are not all finite.
+   Witness on the pre-fix implementation: corpus/C19/nan-weights-route-less.json. *)
+Theorem C19_route_less_weights_nan_refuted :
+  PrimFloat.is_nan (f_variance_prefix []) = true /\ PrimFloat.is_nan (f_stdev_prefix []) = true /\
+  forallb f_finite (f_route_less_features f_variance_prefix f_stdev_prefix) = false /\
+  PrimFloat.is_nan (f_variance_prefix f_sample3) = false /\ PrimFloat.is_nan (f_stdev_prefix f_sample1) = false.
+Proof. exact empty_statistics_nan_prefix. Qed.
+
 (* non-vacuity: a concrete creation + growth history, a concrete compaction that really shrinks, a history through all phases *)
 Theorem C19_nonvacuous_history : exists n n',
   network_new (mkCfg 2) w_data w_round (repeat w_round 8) = Created n /\
